@@ -366,8 +366,10 @@ class Check:
         self.exhaustive = False
         self.extra = {}
         self.findings = [f for f in load_known_findings() if f["property"] == prop_id]
-        os.makedirs(os.path.join(VERIF, "replays"), exist_ok=True)
-        os.makedirs(os.path.join(VERIF, "evidence"), exist_ok=True)
+        # (the coverage gate re-runs the quick generation only to collect its cases: that run writes into a scratch directory)
+        self.out_root = os.environ.get("VERIF_SCRATCH_OUT") or VERIF
+        os.makedirs(os.path.join(self.out_root, "replays"), exist_ok=True)
+        os.makedirs(os.path.join(self.out_root, "evidence"), exist_ok=True)
 
     # -- bookkeeping
     def count(self, key, n=1):
@@ -450,7 +452,7 @@ class Check:
             "wall_s": wall,
             "violations": len(self.violations),
         }
-        with open(os.path.join(VERIF, "evidence", f"{self.prop_id}.json"), "w") as f:
+        with open(os.path.join(self.out_root, "evidence", f"{self.prop_id}.json"), "w") as f:
             json.dump(ev, f, indent=1, default=_json_default)
         for line in printed:
             print(line)
@@ -464,7 +466,7 @@ class Check:
                 "seed": self.seed, "tier": self.tier,
                 "other_violations": [{"kind": k, "description": d, "replay": r} for k, d, r in list(others)[:10]]}
         h = hashlib.blake2b(json.dumps(body, sort_keys=True, default=_json_default).encode(), digest_size=6).hexdigest()
-        path = os.path.join(VERIF, "replays", f"{self.prop_id}-{h}.json")
+        path = os.path.join(self.out_root, "replays", f"{self.prop_id}-{h}.json")
         with open(path, "w") as f:
             json.dump(body, f, indent=1, default=_json_default)
         return path
